@@ -217,21 +217,30 @@ func (e *oraEnv) project(ctx sdk.Context) any {
 		}
 		idx[f.FeedName] = chain.M{"run": false, "pause": false}
 	}
-	// the state index, raw: 0x04 (running) / 0x05 (paused) | 0x00 | name
+	// the state index as the keeper reports it (IteratorFeedsByState); the raw
+	// prefix scan (0x04 running / 0x05 paused | 0x00 | name) only cross-checks it
 	for _, q := range []struct {
+		state servicetypes.RequestContextState
 		pfx   []byte
 		field string
-	}{{oracletypes.PrefixFeedRunningStateKey, "run"}, {oracletypes.PrefixFeedPauseStateKey, "pause"}} {
+	}{{servicetypes.RUNNING, oracletypes.PrefixFeedRunningStateKey, "run"},
+		{servicetypes.PAUSED, oracletypes.PrefixFeedPauseStateKey, "pause"}} {
+		n := 0
+		k.IteratorFeedsByState(ctx, q.state, func(f oracletypes.Feed) {
+			n++
+			if m, ok := idx[f.FeedName].(chain.M); ok {
+				m[q.field] = true
+			}
+		})
+		raw := 0
 		it := storetypes.KVStorePrefixIterator(store, q.pfx)
 		for ; it.Valid(); it.Next() {
-			name := string(it.Key()[len(q.pfx)+1:])
-			if m, ok := idx[name].(chain.M); ok {
-				m[q.field] = true
-			} else {
-				idx[name] = chain.M{"run": q.field == "run", "pause": q.field == "pause"}
-			}
+			raw++
 		}
 		it.Close()
+		if raw != n {
+			gvBad++
+		}
 	}
 	h := ctx.BlockHeight()
 	inb := true
@@ -320,6 +329,22 @@ func (e *oraEnv) msgOf(ev chain.M) sdk.Msg {
 			Timeout: chain.Num(ev, "timeout"), ServiceFeeCap: capCoins(chain.Num(ev, "cap")),
 			RepeatedFrequency: uint64(chain.Num(ev, "freq")), ResponseThreshold: uint32(chain.Num(ev, "thr")),
 			Creator: a.Addr.String()}
+	case "SvcDirect":
+		// the sender addresses the feed's request context in the service module directly
+		cid := strings.Repeat("00", 40)
+		if f, ok := e.last["feeds"].(chain.M)[feed].(chain.M); ok {
+			if id, ok := e.svc.CtxIDs[f["ctx"].(string)]; ok {
+				cid = strings.ToUpper(fmt.Sprintf("%x", id))
+			}
+		}
+		switch chain.Str(ev, "kind") {
+		case "pause":
+			return &servicetypes.MsgPauseRequestContext{RequestContextId: cid, Consumer: a.Addr.String()}
+		case "start":
+			return &servicetypes.MsgStartRequestContext{RequestContextId: cid, Consumer: a.Addr.String()}
+		default:
+			return &servicetypes.MsgKillRequestContext{RequestContextId: cid, Consumer: a.Addr.String()}
+		}
 	case "Respond":
 		cname := ""
 		if f, ok := e.last["feeds"].(chain.M)[feed].(chain.M); ok {
@@ -609,6 +634,10 @@ func oraRandom(fl *drv.Flags, rng *rand.Rand, w *chain.TraceWriter) {
 					who = fd["creator"].(string)
 				}
 				switch {
+				case x == 4:
+					ev := oraEvent("SvcDirect", who, f)
+					ev["kind"] = pick(rng, []string{"pause", "start", "kill"})
+					pending = append(pending, ev)
 				case x < 9:
 					pending = append(pending, oraEvent("StartFeed", who, f))
 				case x < 12:
